@@ -25,6 +25,7 @@ type (
 		bs         []*broker
 
 		coordinatorGen atomic.Uint64
+		topicMetaGen   atomic.Uint64 // bumped by every topic change (notifyTopicChange); orders topic metadata snapshots
 
 		adminCh      chan func()
 		reqCh        chan *clientReq
